@@ -20,7 +20,12 @@ RULE = ("cases drawn from one PRNG (VERIF_SEED), one fresh file each; files hold
         "getdatastrs/getrange and SDgetdimscale/getdatastrs/getrange; SD files hold several record variables with "
         "different record counts; GR files mix images without a raster-image group (other types, 2/4 components) with "
         "8/24-bit ones; counts (DFSDndatasets, DFR8nimages, DF24nimages, DFPnpals, SD/GR file info) are compared; "
-        "(sds) 1-4 datasets of rank 1-4, extents 1-5, "
+        "dimensions also carry label/unit/format strings (DFSDsetdimstrs / SDsetdimstrs) and, for SD, user names drawn "
+        "from a pool in which several names are proper prefixes of others (lat, lat_bnds, x, x1, x10 ...); some files hold "
+        "more than ten dimension variables (fakeDim1 vs fakeDim10 ...); every DFSD read is repeated into a caller's array "
+        "that is larger than the dataset by 0-3 in each dimension, through DFSDgetdata(maxsizes) | DFSDgetslice | "
+        "DFSDreadslab, and every DFR8getimage into a larger xdim/ydim: same values at the array's strides, rest untouched; "
+        "(sds) 1-6 datasets of rank 1-4, extents 1-5, "
         "every 8/16/32-bit integer, char and float32/64 type in standard, little-endian and native flavour, optional "
         "unlimited first dimension, written by DFSDadddata | SDcreate+SDwritedata | nccreate/ncdimdef/ncvardef/ncvarput "
         "and read by DFSDgetdims/getNT/getdata, SDgetinfo/SDreaddata, ncvarinq/ncvarget, the Vgroup/Vdata records "
@@ -92,14 +97,30 @@ def rstr(r):
     return [r.randrange(33, 127) for _ in range(r.choice([1, 2, 5, 8]))]
 
 
+def gen_pad(r):
+    """how much larger than the object the reading caller's array is (2 bits per dimension) and which call reads"""
+    if r.random() < 0.3:
+        return 0
+    p = 0
+    for i in range(4):
+        p |= r.choice([0, 0, 1, 2, 3]) << (2 * i)
+    return p | (r.choice([0, 0, 1, 2]) << 12)
+
+
 def gen_sds(r):
     w = r.choice(["dfsd", "sd", "sd", "nc"])
     n = r.choice([1, 2, 2, 3, 4])
+    many = w != "nc" and r.random() < 0.12      # a file with more than ten dimensions that all have variables
+    if many:
+        n = r.choice([4, 5, 6])
     ds = []
     unl_used = False
+    # dimension names an SD writer may give: several are proper prefixes of others
+    names = ["lat", "lat_bnds", "lat2", "x", "x1", "x10", "t", "time", "ti", "lon", "lo", "l", "fake", "fakeD"]
+    r.shuffle(names)
     nrec = r.choice([1, 2, 3, 5])     # the netCDF-style calls know one record count per file
     for _ in range(n):
-        rank = r.choice([1, 1, 2, 2, 3, 3, 4])
+        rank = r.choice([1, 1, 2, 2, 3, 3, 4]) if not many else 3
         dims = [r.choice([1, 2, 3, 4, 5]) for _ in range(rank)]
         if w == "nc":
             nt = r.choice(NC_OK)
@@ -115,20 +136,39 @@ def gen_sds(r):
         for d in dims:
             ne *= d
         wd = BASES[nt & 255]
-        d = {"dims": dims, "unl": unl, "nt": nt, "data": rbytes(r, ne * wd), "scales": [None] * rank, "strs": None, "range": None}
-        if w in ("dfsd", "sd") and r.random() < 0.6:
+        d = {"dims": dims, "unl": unl, "nt": nt, "data": rbytes(r, ne * wd), "scales": [None] * rank, "strs": None, "range": None,
+             "dstrs": [None] * rank, "dnames": [[] for _ in range(rank)]}
+        if w in ("dfsd", "sd") and (many or r.random() < 0.5):
+            # label/unit/format of dimensions, on an arbitrary subset (all of them in a many-dimension file)
+            for i in range(rank):
+                if many or r.random() < 0.5:
+                    d["dstrs"][i] = (rstr(r), rstr(r) if r.random() < 0.7 else [], rstr(r) if r.random() < 0.7 else [])
+        if w == "sd" and r.random() < 0.5:
+            for i in range(rank):
+                if names and r.random() < 0.6:
+                    d["dnames"][i] = [ord(ch) for ch in names.pop()]
+        if w in ("dfsd", "sd") and (many or r.random() < 0.6):
             # dimension scales on an arbitrary subset of the dimensions (never on a record dimension)
             for i in range(rank):
-                if r.random() < 0.5 and not (unl and i == 0):
+                if (many or r.random() < 0.5) and not (unl and i == 0):
                     d["scales"][i] = rbytes(r, dims[i] * wd)
         if w in ("dfsd", "sd") and r.random() < 0.4:
             d["strs"] = (rstr(r), rstr(r) if r.random() < 0.7 else [], rstr(r) if r.random() < 0.7 else [])
         if w in ("dfsd", "sd") and r.random() < 0.3:
             d["range"] = (rbytes(r, wd), rbytes(r, wd))
+        if w == "sd":
+            # an SD dimension with strings but no scale becomes a coordinate variable without values, which the older
+            # description shows as a dataset with unspecified content: keep strings on dimensions that have a scale
+            for i in range(rank):
+                if d["dstrs"][i] and not d["scales"][i]:
+                    if unl and i == 0:
+                        d["dstrs"][i] = None
+                    else:
+                        d["scales"][i] = rbytes(r, dims[i] * wd)
         ds.append(d)
     pre = r.choice([0, 0, 1, 2]) if w != "nc" else 0
     edits = sorted(r.sample(range(n), r.randrange(1, n + 1))) if (w == "sd" and r.random() < 0.5) else []
-    return {"kind": "sds", "w": w, "pre": pre, "edits": edits, "objs": ds}
+    return {"kind": "sds", "w": w, "pre": pre, "edits": edits, "pad": gen_pad(r), "objs": ds}
 
 
 def gen_img(r):
@@ -159,7 +199,7 @@ def gen_img(r):
                     "pal": rbytes(r, 768) if pal else None})
     pre = r.choice([0, 0, 1, 2])
     edits = sorted(r.sample(range(n), r.randrange(1, n + 1))) if (w == "gr" and r.random() < 0.6) else []
-    return {"kind": "img", "w": w, "pre": pre, "edits": edits, "ril": r.choice([-1, 0, 1, 2]), "objs": ims}
+    return {"kind": "img", "w": w, "pre": pre, "edits": edits, "pad": gen_pad(r) & 15, "ril": r.choice([-1, 0, 1, 2]), "objs": ims}
 
 
 def gen_rawsds(r):
@@ -232,11 +272,17 @@ def meta_tok(d):
         it.append("t=%s;%s;%s" % tuple(hs(x) for x in d["strs"]))
     if d.get("range"):
         it.append("r=%s;%s" % (hexs(d["range"][0]), hexs(d["range"][1])))
+    for i, x in enumerate(d.get("dstrs") or []):
+        if x:
+            it.append("d%d=%s;%s;%s" % ((i,) + tuple(hs(y) for y in x)))
+    for i, x in enumerate(d.get("dnames") or []):
+        if x:
+            it.append("n%d=%s" % (i, hexs(x)))
     return ",".join(it) or "-"
 
 
 def parse_meta(tok, rank):
-    d = {"scales": [None] * rank, "strs": None, "range": None}
+    d = {"scales": [None] * rank, "strs": None, "range": None, "dstrs": [None] * rank, "dnames": [[] for _ in range(rank)]}
     ub = lambda h: [] if h == "_" else list(bytes.fromhex(h))
     if tok != "-":
         for it in tok.split(","):
@@ -245,6 +291,12 @@ def parse_meta(tok, rank):
                 d["scales"][int(i)] = ub(h)
             elif it[0] == "t":
                 d["strs"] = tuple(ub(x) for x in it[2:].split(";"))
+            elif it[0] == "d":
+                i, h = it[1:].split("=")
+                d["dstrs"][int(i)] = tuple(ub(x) for x in h.split(";"))
+            elif it[0] == "n":
+                i, h = it[1:].split("=")
+                d["dnames"][int(i)] = ub(h)
             elif it[0] == "r":
                 d["range"] = tuple(ub(x) for x in it[2:].split(";"))
     return d
@@ -253,13 +305,13 @@ def parse_meta(tok, rank):
 def emit(cid, c):
     k = c["kind"]
     if k == "sds":
-        t = ["%s sds %s %d %s %d" % (cid, c["w"], c.get("pre", 0), ",".join(map(str, c.get("edits", []))) or "-", len(c["objs"]))]
+        t = ["%s sds %s %d %s %d %d" % (cid, c["w"], c.get("pre", 0), ",".join(map(str, c.get("edits", []))) or "-", c.get("pad", 0), len(c["objs"]))]
         for d in c["objs"]:
             dims = ["%s%d" % ("u" if (d["unl"] and i == 0) else "", x) for i, x in enumerate(d["dims"])]
             t.append("%d %s %d %s %s" % (len(d["dims"]), " ".join(dims), d["nt"], hexs(d["data"]), meta_tok(d)))
         return " ".join(t)
     if k == "img":
-        t = ["%s img %s %d %s %d %d" % (cid, c["w"], c.get("pre", 0), ",".join(map(str, c.get("edits", []))) or "-", c["ril"], len(c["objs"]))]
+        t = ["%s img %s %d %s %d %d %d" % (cid, c["w"], c.get("pre", 0), ",".join(map(str, c.get("edits", []))) or "-", c.get("pad", 0), c["ril"], len(c["objs"]))]
         for m in c["objs"]:
             t.append("%d %d %d %d %d %d %s %s" % (m["x"], m["y"], m["nc"], m["nt"], m["il"], m["comp"], hexs(m["data"]),
                                                    hexs(m["pal"]) if m["pal"] else "-"))
@@ -302,6 +354,7 @@ def parse_case(line):
         w = nx()
         pre = int(nx())
         ed = nx()
+        pad = int(nx())
         n = int(nx())
         objs = []
         for _ in range(n):
@@ -318,11 +371,12 @@ def parse_case(line):
             o = {"dims": dims, "unl": unl, "nt": nt, "data": list(bytes.fromhex(h)) if h != "-" else []}
             o.update(parse_meta(nx(), rank))
             objs.append(o)
-        return cid, {"kind": "sds", "w": w, "pre": pre, "edits": [int(x) for x in ed.split(",")] if ed != "-" else [], "objs": objs}
+        return cid, {"kind": "sds", "w": w, "pre": pre, "edits": [int(x) for x in ed.split(",")] if ed != "-" else [], "pad": pad, "objs": objs}
     if k == "img":
         w = nx()
         pre = int(nx())
         ed = nx()
+        pad = int(nx())
         ril = int(nx())
         n = int(nx())
         objs = []
@@ -331,7 +385,7 @@ def parse_case(line):
             h, p = nx(), nx()
             objs.append({"x": x, "y": y, "nc": nc, "nt": nt, "il": il, "comp": comp,
                          "data": list(bytes.fromhex(h)) if h != "-" else [], "pal": list(bytes.fromhex(p)) if p != "-" else None})
-        return cid, {"kind": "img", "w": w, "pre": pre, "edits": [int(x) for x in ed.split(",")] if ed != "-" else [], "ril": ril, "objs": objs}
+        return cid, {"kind": "img", "w": w, "pre": pre, "edits": [int(x) for x in ed.split(",")] if ed != "-" else [], "pad": pad, "ril": ril, "objs": objs}
     if k == "pal":
         n = int(nx())
         return cid, {"kind": "pal", "objs": [list(bytes.fromhex(nx())) for _ in range(n)]}
@@ -405,7 +459,7 @@ def run_cases(ctx, cases, tag):
         for cid, c in cases:
             fh.write((cid + " " + rawline[cid] if cid in rawline else emit(cid, c)) + "\n")
     rc, R = vc.run_lines(exe, ph, timeout=1500, args=[wd])
-    noise = [l for l in R if not re.match(r"^\S+ (w|rec|end|crash|dfsd|sd|sdn|nc|vg|vgi|dfr8|df24|gr|grr|dfp|dfan|an|legacy|dfsdmeta|sdmeta) ", l + " ")]
+    noise = [l for l in R if not re.match(r"^\S+ (w|rec|end|crash|dfsd|sd|sdn|nc|vg|vgi|dfr8|df24|gr|grr|dfp|dfan|an|legacy|dfsdmeta|sdmeta|dfsdp|dfr8p) ", l + " ")]
     Rd = by_case([l for l in R if l not in noise])
     Sd = by_case(S)
     # phase 2: the record models read the element dump of every file the library wrote
@@ -424,7 +478,7 @@ def run_cases(ctx, cases, tag):
     return Rd, Sd, Md, noise
 
 
-VIEWS = ("dfsd", "sd", "sdn", "nc", "vg", "vgi", "dfr8", "df24", "gr", "grr", "dfp", "dfan", "an", "dfsdmeta", "sdmeta")
+VIEWS = ("dfsd", "sd", "sdn", "nc", "vg", "vgi", "dfr8", "df24", "gr", "grr", "dfp", "dfan", "an", "dfsdmeta", "sdmeta", "dfsdp", "dfr8p")
 
 
 def observed(lines):
@@ -437,6 +491,8 @@ def compare(c, R, S):
     crash = [l for l in R if l.startswith("crash")]
     if crash:
         return ["library crashed: " + crash[0]], 0
+    named = set(" ".join(l.split()[:4]) for l in s if l.startswith("sdmeta ") and l.split()[2] == "dname")
+    r = [l for l in r if not (l.startswith("sdmeta ") and l.split()[2] == "dname" and " ".join(l.split()[:4]) not in named)]
     if c["kind"] == "sds" and len(set(o["dims"][0] for o in c["objs"] if o["unl"])) > 1:
         # record variables with different record counts: the netCDF-style calls (and the record-dimension Vdata)
         # know one record count per file and present every record variable with the largest; outside the claim
@@ -571,6 +627,10 @@ def shrinks(c):
         d = dict(c)
         d["pre"] = 0
         yield d
+    if c.get("pad"):
+        d = dict(c)
+        d["pad"] = 0
+        yield d
     if c["kind"] in ("sds", "rawsds"):
         for i, o in enumerate(objs):
             for j, dim in enumerate(o["dims"]):
@@ -633,6 +693,22 @@ def shrink(ctx, c, limit=25):
 def signature(c, bad):
     """'gr-reads-nonpixel-interlaced-rig': every disagreement is the GR view of a 24-bit image that DF24 stored with
     line or component interlace (GRreadimage takes the stored bytes for pixel-interlaced data)"""
+    if c["kind"] in ("sds", "rawsds") and c.get("w", "dfsd") == "dfsd":
+        # 'sd-drops-strings-of-unscaled-old-dimension': every disagreement is the SD view of the label/unit/format of a
+        # dimension of an old-style (DFSD-written) dataset that has strings but no scale
+        ok = bool(bad)
+        for b in bad:
+            m = re.match(r"^(expected|library)\s+sdmeta (\d+) dstrs (\d+) ", b)
+            if not m:
+                ok = False
+                break
+            k_, i_ = int(m.group(2)), int(m.group(3))
+            o = c["objs"][k_] if k_ < len(c["objs"]) else None
+            if not (o and i_ < len(o["dims"]) and o["dstrs"][i_] and not o["scales"][i_]):
+                ok = False
+                break
+        if ok:
+            return "sd-drops-strings-of-unscaled-old-dimension"
     if c["kind"] == "img" and c["w"] == "df" and c["ril"] >= 0:
         idx = set()
         for b in bad:
@@ -684,7 +760,10 @@ def run(ctx):
              "values_compared": 0, "number_types": {}, "interlace_pairs": {}, "compressions": {},
              "metadata_lines_compared": 0, "datasets_with_scales_on_a_proper_subset": 0, "scale_after_unscaled_dimension": 0,
              "files_with_differing_record_counts": 0, "later_metadata_sessions": 0, "foreign_objects_first": 0,
-             "gr_files_with_group_less_image_before_group_image": 0, "objects_per_file": {}}
+             "gr_files_with_group_less_image_before_group_image": 0, "objects_per_file": {},
+             "dimensions_with_strings": 0, "named_dimensions": 0, "files_with_prefix_related_dimension_names": 0,
+             "files_with_more_than_ten_dimension_variables": 0, "reads_into_larger_array": {"DFSDgetdata": 0, "DFSDgetslice": 0,
+             "DFSDreadslab": 0, "DFR8getimage": 0}, "larger_in_non_leading_dimension": 0}
     nviol = 0
     for cid, c in cases:
         R, S = Rd.get(cid, []), Sd.get(cid, [])
@@ -706,6 +785,20 @@ def run(ctx):
             rig = [(o["nt"] == 21 and o["nc"] in (1, 3)) for o in c["objs"]]
             if any((not a) and any(rig[i + 1:]) for i, a in enumerate(rig)):
                 stats["gr_files_with_group_less_image_before_group_image"] += 1
+        if k == "sds":
+            nm = ["".join(map(chr, x)) for o in c["objs"] for x in o.get("dnames", []) if x]
+            stats["named_dimensions"] += len(nm)
+            stats["dimensions_with_strings"] += sum(1 for o in c["objs"] for x in o.get("dstrs", []) if x)
+            if any(a != b and b.startswith(a) for a in nm for b in nm):
+                stats["files_with_prefix_related_dimension_names"] += 1
+            if sum(1 for o in c["objs"] for i in range(len(o["dims"])) if o["scales"][i] or o["dstrs"][i] or c["w"] == "dfsd") > 10:
+                stats["files_with_more_than_ten_dimension_variables"] += 1
+            if c.get("pad"):
+                stats["reads_into_larger_array"][("DFSDgetdata", "DFSDgetslice", "DFSDreadslab", "DFSDgetdata")[(c["pad"] >> 12) & 3]] += 1
+                if any(((c["pad"] >> (2 * i)) & 3) and i < len(o["dims"]) for o in c["objs"] for i in range(1, 4)):
+                    stats["larger_in_non_leading_dimension"] += 1
+        if k == "img" and c.get("pad"):
+            stats["reads_into_larger_array"]["DFR8getimage"] += 1
         stats["metadata_lines_compared"] += sum(1 for l in R if l.startswith(("sdmeta ", "dfsdmeta ")))
         for o in c.get("objs", []):
             if k in ("sds", "rawsds") and o.get("scales"):
